@@ -6,13 +6,13 @@ ALL = ["C%02d" % i for i in range(1, 21)]
 
 # id -> (level category, technique, level text, level note, design ref)
 CHECKS = {
- "C01": ("exploration", "metamorphic multi-process replay (one replica serving API reads) + race detector",
+ "C01": ("exploration", "metamorphic multi-process replay (replicas serving API reads / with upstream and late database failures) + race detector",
          "Independent fresh daemon processes (different hash seeds, GOMAXPROCS, upstream delays, time zones; one under the race detector) replay forged chains built to contain exact ties (equal staking stakes incl. the top stake above the cap, equal oversubscribed bank requests, >100-entry blocks); canonical dumps of all ledger tables must be byte-identical. Sampling of schedules/hash seeds, not enumeration: held-on-K-executions.",
-         "Trusted: the lab's forge/fake factomd/dumper (self-checked: forged chains are parsed and Merkle-verified by the daemon's own factom client). Compressed era heights; averaging window 12.",
+         "Trusted: the lab's forge/fake factomd/dumper (self-checked: forged chains are parsed and Merkle-verified by the daemon's own factom client). Compressed era heights; averaging window 12. Every third replica answers read-only API requests between blocks; every third has a fake factomd failing every 29th entry request once and a database refusing the last statement of every fifth block once.",
          "DESIGN.md §3 C01"),
- "C02": ("fault_enumeration", "crash-point enumeration: SIGKILL at SQL statement boundaries + fresh-process verifier",
+ "C02": ("fault_enumeration", "crash-point enumeration: SIGKILL at SQL statement boundaries (small page cache, the daemon's own journal mode) + failing statements / upstream requests + fresh-process verifier",
          "The real daemon is SIGKILLed before/after the k-th database statement (BEGIN, COMMIT and pool reads included) of special blocks (every payout/one-time-adjustment/bank/snapshot kind) in rollback-journal and WAL mode; a fresh process checks integrity, recorded height, ledger == reference state of that height, contiguous height rows, and resumes. Quick = stratified by call site; thorough = every statement index of the special blocks.",
-         "Process kill only (page cache survives), not power loss. Statement boundaries are the crash points; the wrapper driver is shown transparent by the self-check.",
+         "Process kill only (page cache survives), not power loss. Statement boundaries are the crash points; the wrapper driver is shown transparent by the self-check and opens the database with the journal mode and synchronous level the daemon itself chose. Every other crash point runs with an 8-page cache (dirty pages reach the file before COMMIT). A block also fails instead of the process dying: sampled statements, the first and last read outside the transaction of every call site, the first dblock request, an entry request.",
          "DESIGN.md §3 C02"),
  "C05": ("exploration", "metamorphic mutation of signed entries (bit flips + structural forgeries)",
          "Every single-bit flip of content/salt/RCD/signature of valid base entries (RCD-1 and RCD-e, transfer and conversion, salt window edges) plus structural forgeries are placed next to the originals; ledger with forgeries must equal ledger without; single-purpose senders give a direct positive control.",
@@ -20,15 +20,15 @@ CHECKS = {
          "DESIGN.md §3 C05"),
  "C06": ("exploration", "effect counting on single-purpose addresses + metamorphic first-occurrence-only replay",
          "Entries repeated at every placement relative to holding/execution/rejection/restart, in five eras (incl. the per-height PEG bank before V4); number of effects read from final balances (0 or 1) and, for conversions, the credited amount must equal the one recorded execution; blocks also fail once and are applied again (failed dblock fetch / late statement failure); chain with first occurrences only must give the same ledger.",
-         "Every repeat must be inert, also after a rejection (the property's own observation point).",
+         "Every repeat must be inert, also after a rejection (the property's own observation point). A chain with repeats that stops at a block holding a copy, while the first-occurrence-only chain gets past that block, is a violation (the copy had an effect); any other stop is inconclusive here and C08's subject.",
          "DESIGN.md §3 C06"),
- "C08": ("exploration", "bounded-progress + crash monitor under a hostile-entry generator",
+ "C08": ("exploration", "bounded-progress + crash monitor under a hostile-entry generator and under the rule checks' workloads",
          "34 kinds of hostile/malformed/duplicated entries on the three tracked chains are applied by the real daemon on top of adaptively forged ledgers in every era; a block must commit within 3 attempts and the process must survive (panics, log.Fatal and runtime fatals are observed, attributed and de-duplicated).",
-         "Healthy fake factomd/database; Factom-level malformations out of scope; liveness restated as bounded progress.",
+         "Healthy fake factomd/database; Factom-level malformations out of scope; liveness restated as bounded progress. The workloads of the rule checks (C03, C04, C07, C11-C16, with blocks applied twice and process restarts) are run as well with bounded progress as the only oracle.",
          "DESIGN.md §3 C08"),
- "C09": ("exploration", "metamorphic restart placement (continuous vs restarted runs), incl. restarts around every activation",
+ "C09": ("exploration", "metamorphic restart placement (continuous vs restarted runs), incl. restarts around every activation and replays answering API requests between blocks",
          "Chains with ungraded blocks inside the averaging window and average-priced conversions are synced continuously and with clean restarts at chosen heights; per-height and final dumps must coincide. Thorough tier is exhaustive over single (gap, restart) placements in a 3-window span and adds chains at the real 288 window.",
-         "Window shortened via the exported package variables except in the real-window chains; restart = cancel + new NewPegnetd on the same database.",
+         "Window shortened via the exported package variables except in the real-window chains; restart = cancel + new NewPegnetd on the same database. c09.api chains (an asset without an average, conversions of it waiting) are replayed by one process and by a new process before every block while both answer the same read-only API requests after every block.",
          "DESIGN.md §3 C09"),
  "C10": ("fault_enumeration", "single-fault injection at SQL statement / upstream request boundaries + operating-system write faults via strace + differential ledger",
          "One transient fault (statement returns an error instead of executing, or request answered by RPC error / HTTP 500 / truncated body / reset) per run on special blocks, plus sampled pairs; every state committed from the faulted block on must equal the fault-free reference; crash-stop after a fault is resumed by a fresh process. Quick = every distinct (call site, statement shape) and request kind; thorough = every index.",
@@ -36,7 +36,7 @@ CHECKS = {
          "DESIGN.md §3 C10"),
  "C03": ("exploration", "one-step reference-model monitor (two-pass funds rule) over adaptive workloads",
          "Well-signed batches with amounts at balance-1/balance/balance+1, several draws on one balance, self-credits, conversion-then-spend, zero and 2^63-1 amounts are considered by the real daemon on adaptively forged ledgers in every era; after each block every balance, the recorded status and the sign of every balance column are compared with the reference rule re-based on the observed previous state.",
-         "Reference rules written from the statement; signatures/timestamps decided by fat2 here (C05 judges them), the form and amounts by the lab's strict reader. In every second profile blocks fail once and are applied again (failed dblock fetch / last statement before COMMIT, at every activation height); every third profile answers read-only API requests between blocks. The same holds for all one-step model checks (C04, C07, C11-C17).",
+         "Reference rules written from the statement; signatures/timestamps decided by fat2 here (C05 judges them), the form and amounts by the lab's strict reader. In every second profile blocks fail once and are applied again (failed dblock fetch / last statement before COMMIT, at every activation height); every third profile answers read-only API requests between blocks; in every fourth a new daemon process takes over the database before every activation height, every snapshot height, the heights after them and one height in five. A chain that stops with the daemon's 'insufficient balance' error is a C03 violation (an overdraft reached the debit); other stops are inconclusive here and C08's subject. The same holds for all one-step model checks (C04, C07, C11-C17).",
          "DESIGN.md §3 C03"),
  "C04": ("exploration", "one-step supply/balance conservation monitor against a reference model",
          "Per block and asset the observed supply delta must equal the sum of the block's issuance/destruction events computed by the reference rules, and every address/asset balance must equal the prediction (nobody else changes; debit == credits), on busy mixed workloads crossing all eras.",
